@@ -7,8 +7,9 @@ open Pyrealb.C17
 #print axioms fields_exact_tbl
 #print axioms fields_exact_partial
 #print axioms clock12_tbl
-#print axioms clock12_refuted
-#print axioms clock12_partial
+#print axioms clock12_holds
+#print axioms numeric_order_tbl
+#print axioms conventional_order_holds
 #print axioms noon_midnight_iff_holds
 #print axioms nat_omits_only_zero_holds
 #print axioms relative_week_tbl
